@@ -64,6 +64,7 @@ import (
 
 	"verif/mc"
 	cm "verif/model/cmapmodel"
+	"verif/model/observe"
 )
 
 // ------------------------------------------------------------ observation
@@ -240,6 +241,14 @@ func run(c *mc.Ctx, f cm.File, data []byte, desc, faultAt string) mc.Verdict {
 	var src io.Reader = bytes.NewReader(data)
 	if len(data)%2 == 1 {
 		src = &dataWithEOF{data: data}
+	}
+	if len(data)%3 == 0 {
+		// every third file has been read once before, and the caller has
+		// overwritten everything that first call returned (codes, bounds,
+		// destinations, names): what a call returns belongs to the caller
+		if pre, err0 := postscript.ReadCMap(bytes.NewReader(data)); err0 == nil {
+			observe.Scribble(pre)
+		}
 	}
 	d, err := postscript.ReadCMap(src)
 	c.Step()
@@ -712,6 +721,36 @@ func extremeRangeBody(c *mc.Ctx, item int) mc.Verdict {
 	return run(c, f, cm.Write(f, cm.Layout{}), fmt.Sprintf("one %v entry <%x> <%x>", kind, lo, hi), "")
 }
 
+// stackBoundaryBody: a bfrange block whose last entry maps to an array of
+// glyph names.  While the array is being collected the operand stack holds the
+// earlier entries (3 objects each), the two bounds, the mark and the names: 3k+n
+// objects for k entries and n names.  Up to the interpreter's limit of 500
+// objects this is an ordinary valid file.
+var stackTotals = []int{300, 497, 498, 499, 500}
+var stackEntries = []int{1, 2, 50, 99, 100}
+
+func stackBoundaryBody(c *mc.Ctx, item int) mc.Verdict {
+	k := stackEntries[item%len(stackEntries)]
+	total := stackTotals[item/len(stackEntries)]
+	n := total - 3*k
+	m := baseCMap(0)
+	m.Blocks = append(m.Blocks, cm.Block{Kind: cm.CodeSpaceRange, Declared: -1, Entries: []cm.Entry{{Lo: cm.Str(0, 0), Hi: cm.Str(0xff, 0xff)}}})
+	var es []cm.Entry
+	for i := 0; i < k-1; i++ {
+		es = append(es, cm.Entry{Lo: cm.Str(0x20, byte(2*i)), Hi: cm.Str(0x20, byte(2*i+1)), Dst: cm.Str(0, byte(i))})
+	}
+	var names []cm.Value
+	for j := 0; j < n; j++ {
+		names = append(names, cm.Name(fmt.Sprintf("g%d", j)))
+	}
+	lo := 0x4000
+	hi := lo + n - 1
+	es = append(es, cm.Entry{Lo: cm.Str(byte(lo>>8), byte(lo)), Hi: cm.Str(byte(hi>>8), byte(hi)), Dst: cm.Array(names...)})
+	m.Blocks = append(m.Blocks, cm.Block{Kind: cm.BfRange, Declared: -1, Entries: es})
+	f := cm.File{CMaps: []cm.CMap{m}}
+	return run(c, f, cm.Write(f, cm.Layout{}), fmt.Sprintf("bfrange block with %d entries, the last one mapping to an array of %d names (%d objects on the operand stack)", k, n, total), "")
+}
+
 // preambleBody: a standard-form CMap behind a long licence header (comment
 // lines, DSC lines or blank lines): what comes before `begincmap` may be of
 // any length.
@@ -942,6 +981,14 @@ func main() {
 				Budget:   budget,
 				Rule:     "item = code width 1..4 x range {full <00..> <ff..>, full minus the first code, full minus the last code, the first code alone, the last code alone} x kind {cidrange, bfrange, notdefrange, codespacerange}: each is a valid entry and must be returned unchanged; non-trivial = all",
 				CrashKey: func(int) string { return "C07:crash:extreme-ranges" },
+			})
+			fams = append(fams, mc.Family{
+				Name:     "operand-stack-boundary",
+				Items:    len(stackTotals) * len(stackEntries),
+				Body:     stackBoundaryBody,
+				Budget:   budget,
+				Rule:     fmt.Sprintf("item = a bfrange block with k in %v entries whose last entry maps to an array of n glyph names, n chosen so that 3k+n (the objects on the operand stack while the array is collected) is one of %v: valid files up to the documented limit of 500 objects, to be returned entry for entry; non-trivial = all", stackEntries, stackTotals),
+				CrashKey: func(int) string { return "C07:crash:operand-stack-boundary" },
 			})
 			fams = append(fams, mc.Family{
 				Name:   "long-preamble",
